@@ -62,6 +62,7 @@ int main(int argc, char **argv) {
   if (argc < 4) return 2;
   std::ifstream in(argv[1]);
   g_out = fopen(argv[2], "a");
+  setvbuf(g_out, nullptr, _IOLBF, 1 << 16);   // whole lines only: a crash must not leave half a record
   std::string scratch = argv[3];
   long start = argc > 4 ? atol(argv[4]) : 0;
   long cpu_s = argc > 5 ? atol(argv[5]) : 20;
